@@ -32,6 +32,9 @@ C_FUNCS = [
     ("trees.c", "tsk_tree_get_depth_unsafe"), ("trees.c", "tsk_tree_get_depth"), ("trees.c", "tsk_tree_is_descendant"),
     ("trees.c", "tsk_tree_get_mrca"), ("trees.c", "tsk_tree_get_num_tracked_samples"),
     ("trees.c", "tsk_tree_get_time"), ("trees.c", "tsk_tree_get_num_samples"),
+    # roots (children of the virtual root), sample status and the walk to a node's root
+    ("trees.c", "tsk_tree_is_sample"), ("trees.c", "tsk_tree_get_left_root"), ("trees.c", "tsk_tree_get_right_root"),
+    ("trees.c", "tsk_tree_get_num_roots"), ("trees.c", "tsk_tree_get_node_root"), ("trees.c", "tsk_tree_node_root"),
     # row getters of the tree sequence: accepted iff 0 <= index < number of rows
     ("trees.c", "tsk_treeseq_get_node"), ("trees.c", "tsk_treeseq_get_edge"), ("trees.c", "tsk_treeseq_get_migration"),
     ("trees.c", "tsk_treeseq_get_mutation"), ("trees.c", "tsk_treeseq_get_population"), ("trees.c", "tsk_treeseq_get_provenance"),
